@@ -529,6 +529,97 @@ fn runtime_cases() -> Vec<Case> {
         p("join_filter", "main", "main", &[("main", "a\nb @@{{ [1, VAR]|join(\",\") }}\nc")]);
         p("string_concat", "main", "main", &[("main", "a\nb @@{{ VAR }}{{ x }}\nc")]);
     }
+    // --- rows of the interpreter that need a special surrounding
+    v.push(rt("row_super_args", "", "main", "main", &[
+        ("base", "b1\n{% block b %}x{% endblock %}"),
+        ("main", "{% extends \"base\" %}\n{% block b %}\n@@{{ super(1) }}\n{% endblock %}"),
+    ]));
+    v.push(one("row_super_call_no_parent", "", "a\n{% block b %}\n@@{{ super() ~ \"\" }}\n{% endblock %}"));
+    v.push(rt("row_super_call_err", "", "main", "main", &[
+        ("base", "b1\n{% block b %}\n{{ 1 + s }}\n{% endblock %}"),
+        ("main", "{% extends \"base\" %}\n{% block b %}\n@@{{ super() ~ \"\" }}\n{% endblock %}"),
+    ]));
+    v.push(one("row_fastrecurse_unknown", "", "a\n@@{{ loop(1) }}"));
+    v.push(one("row_required_block", "", "a\n@@{% block rq required %}{% endblock %}$$\nb"));
+    v.push(one("row_recurse_other_block", "", "{% for fa in [[1]] recursive %}\n{% block b %}\n@@{{ loop(fa) }}\n{% endblock %}\n{% endfor %}"));
+    v.push(one("row_recurse_inactive", "", "{% set ns = namespace() %}{% for fa in [[1]] recursive %}{% set ns.l = loop %}{% endfor %}\n{% set l2 = ns.l %}\n@@{{ l2([1]) }}"));
+    v.push(one("tabs_before", "", "a\n\t\t@@{{ 1 + s }}\tb\n\tc"));
+    // --- other entry points
+    v.push(one("entry_render_block", "B", "a\n{% if false %}{% block b %}\nx\n@@{{ 1 + s }}\n{% endblock %}{% endif %}"));
+    v.push(rt("entry_render_block_child", "B", "main", "main", &[
+        ("base", "b1\n{% block b %}{% endblock %}"),
+        ("main", "{% extends \"base2\" %}\n{% block b %}\n@@{{ x|bogus }}\n{% endblock %}"),
+        ("base2", "b1\nno blocks here"),
+    ]));
+    v.push(one("entry_call_macro", "M", "{% macro m() %}\n a\n@@{{ 1 + s }}\n{% endmacro %}\ntext"));
+    v.push(rt("entry_call_macro_include", "M", "main", "inc", &[
+        ("inc", "i1\n@@{{ s.bogus() }}"),
+        ("main", "{% macro m() %}\n{% include \"inc\" %}\n{% endmacro %}"),
+    ]));
+    v.push(one("entry_render_captured", "C", "a\n{% set cap %}\n@@{{ 1 + s }}\n{% endset %}"));
+    // --- user code: errors that come with / without their own location
+    v.push(rt("usr_nested_render_fn", "", "main", "inner", &[
+        ("inner", "i1\ni2 @@{{ 1 + s }}\ni3"),
+        ("main", "a\nb {{ render_inner() }}\nc"),
+    ]));
+    v.push(rt("usr_nested_render_fn_shift_main", "", "main", "main", &[
+        ("inner", "i1\ni2 {{ 1 + s }}\ni3"),
+        ("main", "a\nb @@{{ render_inner() }}\nc"),
+    ]));
+    v.push(rt("usr_nested_render_filter", "", "main", "inner", &[
+        ("inner", "i1\n\n@@{{ x|bogus }}"),
+        ("main", "a\nb {{ x|render_f }}\nc"),
+    ]));
+    v.push(rt("usr_wrapped", "", "main", "main", &[
+        ("inner", "i1\ni2 {{ 1 + s }}\ni3"),
+        ("main", "a\nb @@{{ wrap_inner() }}\nc"),
+    ]));
+    v.push(rt("usr_wrapped_shift_inner", "", "main", "inner", &[
+        ("inner", "i1\ni2 @@{{ 1 + s }}\ni3"),
+        ("main", "a\nb {{ wrap_inner() }}\nc"),
+    ]));
+    v.push(rt("usr_nested_syntax", "L", "main", "inner", &[
+        ("inner", "i1\n@@{% bogus %}"),
+        ("main", "a\nb {{ render_inner() }}\nc"),
+    ]));
+    // --- lazily loaded templates: syntax errors and loader failures surface through include / extends / import
+    v.push(rt("lazy_extends_syntax", "L", "main", "lazybad", &[
+        ("lazybad", "b1\n@@{% bogus %}\n{% block b %}{% endblock %}"),
+        ("main", "{% extends \"lazybad\" %}\n{% block b %}x{% endblock %}"),
+    ]));
+    v.push(rt("lazy_extends_syntax_shift_main", "L", "main", "main", &[
+        ("lazybad", "b1\n{% bogus %}"),
+        ("main", "a\n@@{% extends \"lazybad\" %}\n{% block b %}x{% endblock %}"),
+    ]));
+    v.push(rt("lazy_import_syntax", "L", "main", "lazybad", &[
+        ("lazybad", "b1\n@@{{ 'ä"),
+        ("main", "a\n{% import \"lazybad\" as lb %}"),
+    ]));
+    v.push(rt("lazy_include_lexer_err_mb", "L", "main", "lazybad", &[
+        ("lazybad", "ä\n€ @@{{ € }}"),
+        ("main", "a\n{% include \"lazybad\" %}"),
+    ]));
+    v.push(rt("lazy_include_loader_fails", "L", "main", "main", &[("main", "a\n@@{% include \"loaderfails\" %}\nb")]));
+    v.push(rt("lazy_extends_loader_fails", "L", "main", "main", &[("main", "a\n@@{% extends \"loaderfails\" %}")]));
+    v.push(rt("lazy_include_list_loader_fails", "L", "main", "main", &[("main", "a\n@@{% include [\"nope\", \"loaderfails\"] %}")]));
+    // --- Expression API
+    for (id, flags, text) in [
+        ("expr_add", "e", "@@1 + s"),
+        ("expr_ml", "e", "[\n  1,\n  @@2 + s\n]"),
+        ("expr_filter", "e", "x|string|@@bogus"),
+        ("expr_undef", "es", "@@missing.x.y"),
+        ("expr_call", "e", "@@boom()"),
+        ("expr_in", "e", "@@1 in 2 == true"),
+        ("expr_syntax_eof", "e", "@@1 +"),
+        ("expr_syntax_char", "e", "1 @@? 2"),
+        ("expr_syntax_mb", "e", "'ä' ~ @@€"),
+        ("expr_syntax_trailing", "e", "1 + 2 @@3"),
+        ("expr_syntax_string", "e", "@@'abc"),
+        ("expr_empty", "e", "@@"),
+        ("expr_ws_only", "e", "@@   "),
+    ] {
+        v.push(rt(id, flags, "<expression>", "<expression>", &[("<expression>", text)]));
+    }
     // --- vertical insertion in the middle of the template (marker ^^)
     v.push(one("vmid_expr", "", "{{ x }}\nline two {{ x }}\n^^third\n@@{{ 1 + s }}\n"));
     v.push(one("vmid_for", "", "{% for a in lst %}\n^^{{ a }}\n@@{{ a + s }}\n{% endfor %}"));
@@ -648,7 +739,128 @@ const SPAN_CONTEXTS: &[(&str, &str, &str)] = &[
     ("child_block", "{% extends \"spbase\" %}\nPRE\n{% block b %}\nabc\n^^STMT\n{% endblock %}", ""),
     ("include", "i1\nPRE\n^^STMT\ni3", "a\n{% include \"THIS\" %}\nb"),
     ("after_print", "PRE\n{{ d.a }} {{ lst[0] }} {{ x|string }}\n{{ mkbad() }}\n^^STMT", ""),
+    ("macro_imported", "PRE\n{% macro w() %}\n a\n^^STMT\n{% endmacro %}", "{% import \"THIS\" as lb %}\nx\n\n{{ lb.w() }}"),
 ];
+
+/// One construct per fallible row of `eval_impl` (table C14_VM_ROWS): (site id, statement, flags).
+/// lib/props/c14.py maps every table row to the sites that make exactly that row fail.
+const ROW_SITES: &[(&str, &str, &str)] = &[
+    ("emit_undef", "@@{{ missing }}", "s"),
+    ("lookup_invalid", "@@{{ inv }}", ""),
+    ("getattr_invalid", "@@{{ holder.inv }}", ""),
+    ("getattr_undef", "@@{{ missing.attr }}", ""),
+    ("setattr_bad", "@@{% set x.attr = 1 %}", ""),
+    ("getitem_invalid", "@@{{ holder[\"inv\"] }}", ""),
+    ("getitem_undef", "@@{{ missing[0] }}", ""),
+    ("slice_undef", "@@{{ missing[1:2] }}", "s"),
+    ("slice_zero", "@@{{ lst[::n] }}", ""),
+    ("mergekwargs", "@@{{ dict(**x) }}", ""),
+    ("unpacklist", "@@{% set ua, ub = x %}", ""),
+    ("unpacklist_arity", "@@{% set ua, ub = lst %}", ""),
+    ("unpacklists", "@@{{ range(*x) }}", ""),
+    ("add", "@@{{ 1 + s }}", ""),
+    ("sub", "@@{{ 1 - s }}", ""),
+    ("mul", "@@{{ s * s }}", ""),
+    ("mul_overflow", "@@{{ big * big * big * big }}", ""),
+    ("div", "@@{{ 1 / s }}", ""),
+    ("div_zero", "@@{{ 1 / n }}", ""),
+    ("intdiv_zero", "@@{{ 1 // n }}", ""),
+    ("rem_zero", "@@{{ 1 % n }}", ""),
+    ("pow", "@@{{ s ** 2 }}", ""),
+    ("eq_undef", "@@{{ missing == 1 }}", "s"),
+    ("ne_undef", "@@{{ 1 != missing }}", "s"),
+    ("gt_undef", "@@{{ missing > 1 }}", "s"),
+    ("gte_undef", "@@{{ 1 >= missing }}", "s"),
+    ("lt_undef", "@@{{ missing < 1 }}", "s"),
+    ("lte_undef", "@@{{ 1 <= missing }}", "s"),
+    ("not_undef", "@@{{ not missing }}", "s"),
+    ("concat_left", "@@{{ missing ~ 1 }}", "s"),
+    ("concat_right", "@@{{ 1 ~ missing }}", "s"),
+    ("in_iterable", "@@{{ 1 in missing }}", "s"),
+    ("in_undef", "@@{{ missing in lst }}", "s"),
+    ("in_contains", "@@{{ 1 in 2 }}", ""),
+    ("notin_contains", "@@{{ 1 not in 2 }}", ""),
+    ("cap_eq_a", "@@{{ missing == 1 == 1 }}", "s"),
+    ("cap_eq_b", "@@{{ 1 == missing == 1 }}", "s"),
+    ("cap_ne_a", "@@{{ missing != 1 == true }}", "s"),
+    ("cap_ne_b", "@@{{ 1 != missing == true }}", "s"),
+    ("cap_lt_a", "@@{{ missing < 1 < 2 }}", "s"),
+    ("cap_lt_b", "@@{{ 0 < missing < 2 }}", "s"),
+    ("cap_lte_a", "@@{{ missing <= 1 <= 2 }}", "s"),
+    ("cap_lte_b", "@@{{ 0 <= missing <= 2 }}", "s"),
+    ("cap_gt_a", "@@{{ missing > 1 > 0 }}", "s"),
+    ("cap_gt_b", "@@{{ 2 > missing > 0 }}", "s"),
+    ("cap_gte_a", "@@{{ missing >= 1 >= 0 }}", "s"),
+    ("cap_gte_b", "@@{{ 2 >= missing >= 0 }}", "s"),
+    ("cap_in_iterable", "@@{{ 1 in missing == true }}", "s"),
+    ("cap_in_undef", "@@{{ missing in lst == true }}", "s"),
+    ("cap_in_contains", "@@{{ 1 in 2 == true }}", ""),
+    ("cap_notin_contains", "@@{{ 1 not in 2 == true }}", ""),
+    ("cap_in_contains_mid", "@@{{ 0 < 1 in 2 < 3 }}", ""),
+    ("neg", "@@{{ -s }}", ""),
+    ("pushloop", "@@{% for fa in x %}{% endfor %}", ""),
+    ("iterate_invalid", "@@{% for fa in invlist %}{{ 1 }}{% endfor %}", ""),
+    ("jump_if_false", "@@{% if missing %}{% endif %}", "s"),
+    ("jump_if_false_or_pop", "@@{{ missing and 1 }}", "s"),
+    ("jump_if_true_or_pop", "@@{{ missing or 1 }}", "s"),
+    ("autoescape", "@@{% autoescape bad %}{% endautoescape %}", ""),
+    ("filter_unknown", "@@{{ x|bogus }}", ""),
+    ("filter_fails", "@@{{ x|boomf }}", ""),
+    ("test_unknown", "@@{{ x is bogus }}", ""),
+    ("test_fails", "@@{{ x is boomt }}", ""),
+    ("fn_loop_args", "@@{% for fa in lst %}{{ loop(1, 2) }}{% endfor %}", ""),
+    ("fn_loop_recurse", "@@{% for fa in lst %}{{ loop(fa) ~ \"\" }}{% endfor %}", ""),
+    ("fn_fails", "@@{{ boom() }}", ""),
+    ("fn_unknown", "@@{{ bogus() }}", ""),
+    ("fn_not_callable", "@@{{ x() }}", ""),
+    ("method_unknown", "@@{{ s.bogus() }}", ""),
+    ("callobject", "@@{{ lst[0]() }}", ""),
+    ("fastrecurse_nonrecursive", "@@{% for fa in lst %}{{ loop(fa) }}{% endfor %}", ""),
+    ("include_nonstring", "@@{% include 42 %}", ""),
+    ("include_missing", "@@{% include \"nosuchtemplate\" %}", ""),
+    ("import_nonstring", "@@{% import 42 as zz %}", ""),
+    ("from_import_missing", "@@{% from \"nosuchtemplate\" import zz %}", ""),
+];
+
+/// the contexts the row sites are planted in
+const ROW_CONTEXTS: &[&str] = &["top", "macro_imported", "child_block", "include", "callbody", "for", "setblock", "macro"];
+
+fn row_cases(tier: &str) -> Vec<Case> {
+    let mut out = Vec::new();
+    for (si, (site, stmt, flags)) in ROW_SITES.iter().enumerate() {
+        for (ci, (ctx, wrapper, includer)) in SPAN_CONTEXTS.iter().enumerate() {
+            if !ROW_CONTEXTS.contains(ctx) {
+                continue;
+            }
+            // quick tier: top, imported macro and child block always; the other contexts rotate
+            if tier != "thorough" && !matches!(*ctx, "top" | "macro_imported" | "child_block") && (si + ci) % 3 != 0 {
+                continue;
+            }
+            let text = wrapper.replace("PRE", SP_PRELUDE).replace("STMT", stmt);
+            let mut templates = vec![
+                ("spbase".to_string(), "b1\n{% block b %}{% endblock %}\nb3".to_string()),
+                ("splib".to_string(), "{% macro spm() %}m{% endmacro %}".to_string()),
+            ];
+            let (main, shifted) = if includer.is_empty() {
+                templates.push(("main".to_string(), text));
+                ("main", "main")
+            } else {
+                templates.push(("spinc".to_string(), text));
+                templates.push(("main".to_string(), includer.replace("THIS", "spinc")));
+                ("main", "spinc")
+            };
+            out.push(Case {
+                id: format!("row_{}__{}", site, ctx),
+                templates,
+                main: main.to_string(),
+                shifted: shifted.to_string(),
+                flags: flags.to_string(),
+                class: "runtime",
+            });
+        }
+    }
+    out
+}
 
 const SP_PRELUDE: &str = "{% macro refu(v) %}REFU{{ \"SED\" }}{% if false %}{{ caller(1) }}{% endif %}{% endmacro %}";
 /// contexts that open no frame of their own (reachable under the recursion limit of configuration r)
@@ -853,13 +1065,17 @@ fn build_case(c: &Case, vi: usize, hi: usize) -> Built {
         let (vn, unit) = V_SHIFTS[vi];
         n = if vn == usize::MAX { 65535 - base_lines } else { vn };
         let hunit = H_SHIFTS[hi];
+        // expressions: only whitespace can be inserted
+        let is_expr = c.flags.contains('e');
+        let unit = if is_expr && unit != "\r\n" { "\n" } else { unit };
+        let hunit = if is_expr && hunit != "L" { &"   "[..hunit.chars().count()] } else { hunit };
         let mut s = Src::default();
         s.push_lit(&plain[..pv]);
         s.push_rep(unit, n);
         vbytes = unit.len() * n;
         s.push_lit(&plain[pv..ph]);
         if hunit == "L" {
-            s.push_rep("x", 65540);
+            s.push_rep(if is_expr { " " } else { "x" }, 65540);
             hbytes = 65540;
         } else {
             s.push_lit(hunit);
@@ -881,7 +1097,8 @@ fn build_case(c: &Case, vi: usize, hi: usize) -> Built {
 ///   s strict, m semi-strict, h chainable undefined behaviour
 ///   r recursion limit 1: every instruction that opens a frame (with, for, import, macro call,
 ///     include, block) fails right there
-const CONFIGS: &[&str] = &["d", "p", "n", "x", "a", "k", "t", "c", "s", "m", "h", "r"];
+///   w render_captured_to (a writer) instead of render     l every template comes from a loader (lazily compiled)
+const CONFIGS: &[&str] = &["d", "p", "n", "x", "a", "k", "t", "c", "s", "m", "h", "r", "w", "l"];
 
 fn custom_syntax_case(c: &Case) -> Case {
     let mut c2 = c.clone();
@@ -959,6 +1176,21 @@ fn run_case(c0: &Case, cfg: &str, vi: usize, hi: usize) -> String {
         env.add_function("boom_src", boom_src);
         env.add_filter("boomf", boomf);
         env.add_test("boomt", boomt);
+        env.add_function("render_inner", |state: &minijinja::State| -> Result<Value, Error> {
+            // user code that renders another template and hands its (located) error through
+            let t = state.env().get_template("inner")?;
+            t.render(context! { s => "str", x => 1 }).map(Value::from)
+        });
+        env.add_function("wrap_inner", |state: &minijinja::State| -> Result<Value, Error> {
+            let t = state.env().get_template("inner")?;
+            t.render(context! { s => "str", x => 1 })
+                .map(Value::from)
+                .map_err(|e| Error::new(ErrorKind::InvalidOperation, "wrapped by user code").with_source(e))
+        });
+        env.add_filter("render_f", |state: &minijinja::State, _v: Value| -> Result<Value, Error> {
+            let t = state.env().get_template("inner")?;
+            t.render(context! { s => "str", x => 1 }).map(Value::from)
+        });
         env.add_function("mkbad", || Value::from("bogus"));
         env.add_function("mkundef", || Value::UNDEFINED);
         env.add_filter("undef", |_v: Value| Value::UNDEFINED);
@@ -976,23 +1208,66 @@ fn run_case(c0: &Case, cfg: &str, vi: usize, hi: usize) -> String {
                 }
             }
         }
-        if c.id == "include_syntax_err" {
-            // load lazily through a loader so that the syntax error surfaces during the include
+        let lazy = c.id == "include_syntax_err" || c.flags.contains('L') || cfg == "l";
+        if lazy {
+            // everything (but a main template added explicitly below) is loaded lazily through a loader, so
+            // syntax errors and loader failures surface while the including / extending template renders
+            env = {
+                let mut e2 = Environment::new();
+                std::mem::swap(&mut e2, &mut env);
+                e2.clear_templates();
+                e2
+            };
             let t2 = texts.clone();
-            env.set_loader(move |name| Ok(t2.iter().find(|(n, _)| n == name).map(|(_, s)| s.clone())));
+            env.set_loader(move |name| {
+                if name == "loaderfails" {
+                    return Err(Error::new(ErrorKind::InvalidOperation, "the loader failed")
+                        .with_source(std::io::Error::new(std::io::ErrorKind::Other, "disk on fire")));
+                }
+                Ok(t2.iter().find(|(n, _)| n == name).map(|(_, s)| s.clone()))
+            });
             first_err = None;
         }
         if let Some(e) = first_err {
             return format!("load|{}", describe_chain(&e, &lookup));
         }
         let main_text = lookup(&c.main).unwrap();
-        match env.add_template(&c.main, &main_text) {
+        let inv = Value::from(Error::new(ErrorKind::BadSerialization, "this value refuses to serialize"));
+        let ctx = context! { x => 1, y => 0, n => 0, s => "str", lst => vec![1, 2, 3], d => context!{ a => 1 }, name => "n", nothing => Value::from(()),
+            bad => "bogus", cfg => context!{ mode => "bogus" }, big => u64::MAX,
+            inv => inv.clone(), holder => Value::from(std::collections::BTreeMap::from([("inv".to_string(), inv.clone())])), invlist => Value::from(vec![inv.clone()]) };
+        if c.flags.contains('e') {
+            // Expression API
+            return match env.compile_expression(&main_text) {
+                Err(e) => format!("load|{}", describe_chain(&e, &lookup)),
+                Ok(ex) => match ex.eval(ctx) {
+                    Err(e) => format!("render|{}", describe_chain(&e, &lookup)),
+                    Ok(_) => "noerror|".to_string(),
+                },
+            };
+        }
+        let got = if cfg == "l" {
+            env.get_template(&c.main).map(|_| ())
+        } else {
+            env.add_template(&c.main, &main_text)
+        };
+        match got {
             Err(e) => format!("load|{}", describe_chain(&e, &lookup)),
             Ok(()) => {
                 let t = env.get_template(&c.main).unwrap();
-                let ctx = context! { x => 1, y => 0, n => 0, s => "str", lst => vec![1, 2, 3], d => context!{ a => 1 }, name => "n", nothing => Value::from(()),
-                    bad => "bogus", cfg => context!{ mode => "bogus" } };
-                match t.render(ctx) {
+                let rv = if c.flags.contains('B') {
+                    t.render_captured(ctx).and_then(|mut cap| cap.with_state_mut(|st| st.render_block("b").map(|_| ())))
+                } else if c.flags.contains('M') {
+                    t.render_captured(ctx).and_then(|mut cap| cap.with_state_mut(|st| st.call_macro("m", &[]).map(|_| ())))
+                } else if c.flags.contains('C') {
+                    t.render_captured(ctx).map(|_| ())
+                } else if cfg == "w" {
+                    let mut sink: Vec<u8> = Vec::new();
+                    t.render_captured_to(ctx, &mut sink).map(|_| ())
+                } else {
+                    t.render(ctx).map(|_| ())
+                };
+                match rv {
                     Err(e) => format!("render|{}", describe_chain(&e, &lookup)),
                     Ok(_) => "noerror|".to_string(),
                 }
@@ -1423,6 +1698,7 @@ impl LenPub for Instructions<'_> {
 fn all_cases(tier: &str, rng: &mut Rng) -> Vec<Case> {
     let mut v = runtime_cases();
     v.extend(spanless_cases(tier));
+    v.extend(row_cases(tier));
     v.extend(planted_cases(tier, rng));
     v
 }
@@ -1446,6 +1722,17 @@ fn variants(c: &Case, idx: usize, tier: &str) -> Vec<(&'static str, usize, usize
             if cfg != "d" && PLANT_CFGS[idx % PLANT_CFGS.len()] != cfg {
                 continue;
             }
+        } else if c.id.starts_with("row_") && c.id.contains("__") {
+            // generated row sites: default configuration (+ debug off for the unshifted template)
+            if cfg != "d" && cfg != "x" {
+                continue;
+            }
+        } else if cfg == "r" && c.id.starts_with("entry_") {
+            // an error raised by the entry point itself (render_block / call_macro opening their frame under
+            // recursion limit 1) belongs to no template construct: out of the property's scope
+            continue;
+        } else if c.flags.contains('e') && !matches!(cfg, "d" | "x" | "s") {
+            continue; // expressions: no templates, formatters or loaders involved
         } else if c.id.starts_with("sl_") {
             // spanless sites: the configuration in which the site fails (default unless the site names one),
             // plus debug off
@@ -1464,7 +1751,9 @@ fn variants(c: &Case, idx: usize, tier: &str) -> Vec<(&'static str, usize, usize
                 let big = V_SHIFTS[vi].0 > 1000 || H_SHIFTS[hi] == "L";
                 let small_sample = vi <= 1 || (vi == 3 && hi == 2) || (vi == 2 && hi == 1);
                 let keep = if tier == "thorough" {
-                    (c.class != "planted" && !c.id.starts_with("sl_")) || (c.class == "planted" && cfg == "d") || REDUCED.contains(&(vi, hi))
+                    (c.class != "planted" && !c.id.starts_with("sl_") && !c.id.contains("__")) || (c.class == "planted" && cfg == "d") || REDUCED.contains(&(vi, hi))
+                } else if c.id.starts_with("row_") && c.id.contains("__") {
+                    matches!((vi, hi), (0, 0) | (1, 0) | (3, 2) | (5, 1)) && (cfg != "x" || (vi, hi) == (0, 0))
                 } else if c.id.starts_with("sl_") {
                     REDUCED.contains(&(vi, hi)) && (cfg != "x" || vi <= 1)
                 } else if c.class != "planted" {
